@@ -405,6 +405,25 @@ def run(ctx):
     from ..unpack import unpack_obligations
     n_k13 = unpack_obligations(ctx, r4, "C17.R4", label="K13")
     ctx.count("K13_unpack_sites", n_k13)
+    # K15: decoding bytes that came from outside (a file, a stream) can fail; the failure must be caught where the
+    # reader's other failures are caught (UnicodeDecodeError is a ValueError, not one of the library's errors)
+    n_k15 = 0
+    for fi in repo.all_functions():
+        if fi.fq not in reach:
+            continue
+        for c in walk_own(fi.node):
+            if not (isinstance(c, ast.Call) and isinstance(c.func, ast.Attribute) and c.func.attr == "decode"):
+                continue
+            if any(k_.arg == "errors" and isinstance(k_.value, ast.Constant) and k_.value.value in ("replace", "ignore", "backslashreplace") for k_ in c.keywords):
+                continue
+            n_k15 += 1
+            legacy = any("isinstance(" in t and "bytes" in t and norm(c.func.value) in t for t in guard_texts(c, stop=fi.node))
+            if legacy:
+                r4.ok(f"K15 {fi.qualname}:{norm(c)[:40]}", "legacy `isinstance(x, bytes)` branch on a value that is cell text (str) for every reader", fi.loc(c))
+                continue
+            r4.check(_in_try(c, ("UnicodeDecodeError", "UnicodeError", "ValueError", "Exception")), f"K15 {fi.qualname}:{norm(c)[:40]}", "a decoding failure is caught (and turned into the reader's own error)", fi.loc(c),
+                     why_fail="bytes that are not valid in this encoding raise UnicodeDecodeError, which no handler here catches: the caller sees an internal exception instead of the library's error")
+    ctx.count("K15_decode_sites", n_k15)
     # K2: iteration over a possibly-None slot that another site guards
     guarded, unguarded = [], []
     for fi in repo.all_functions():
